@@ -64,7 +64,7 @@ func c19GenPlan(ctx *core.Ctx) []c19GenCase {
 		c.DeadlineS = c19Deadline(c.Bits)
 		cases = append(cases, c)
 	}
-	reps := ctx.Pick(1, 8)
+	reps := ctx.Pick(1, 20)
 	// undisturbed runs: every toy bit length x concurrency x numPrimes x GOMAXPROCS
 	for r := 0; r < reps; r++ {
 		for bits := 6; bits <= 16; bits++ {
@@ -83,7 +83,7 @@ func c19GenPlan(ctx *core.Ctx) []c19GenCase {
 			add(c19GenCase{Bits: bits, C: 1 + rng.Intn(4), N: 1 + rng.Intn(3)})
 		}
 	}
-	for r := 0; r < ctx.Pick(10, 100); r++ {
+	for r := 0; r < ctx.Pick(10, 200); r++ {
 		for _, bits := range []int{32, 64} {
 			add(c19GenCase{Bits: bits, C: 1 + rng.Intn(8), N: 1 + rng.Intn(3)})
 		}
@@ -96,12 +96,12 @@ func c19GenPlan(ctx *core.Ctx) []c19GenCase {
 		add(c19GenCase{Bits: 512, C: 4 + rng.Intn(5), N: 1, Procs: 16})
 	}
 	if ctx.Thorough() {
-		for r := 0; r < 3; r++ {
-			add(c19GenCase{Bits: 1024, C: 8, N: 1, Procs: 16})
+		for r := 0; r < 4; r++ {
+			add(c19GenCase{Bits: 1024, C: 8, N: 1 + r/3, Procs: 16})
 		}
 	}
 	// context done before the call
-	for r := 0; r < ctx.Pick(1, 6); r++ {
+	for r := 0; r < ctx.Pick(1, 10); r++ {
 		for bits := 6; bits <= 16; bits++ {
 			for _, c := range []int{1, 2 + rng.Intn(3), 5 + rng.Intn(4)} {
 				add(c19GenCase{Bits: bits, C: c, N: 1 + rng.Intn(3), Cancel: "pre", Entropy: []string{"inf", "inf", "zero", "finite"}[rng.Intn(4)], FailAfter: 1 + rng.Intn(40)})
@@ -112,7 +112,7 @@ func c19GenPlan(ctx *core.Ctx) []c19GenCase {
 		add(c19GenCase{Bits: bits, C: 4, N: 2, Cancel: "pre", Procs: 16})
 	}
 	// cancellation while the call runs, after short random delays
-	for r := 0; r < ctx.Pick(8, 60); r++ {
+	for r := 0; r < ctx.Pick(8, 150); r++ {
 		for bits := 6; bits <= 16; bits++ {
 			d := []int{0, 1, 5, 20, 50, 100, 200, 400, 800, 1500, 3000}[rng.Intn(11)]
 			add(c19GenCase{Bits: bits, C: 1 + rng.Intn(8), N: 1 + rng.Intn(3), Cancel: "during", DelayUs: d + rng.Intn(1+d/2)})
@@ -674,8 +674,10 @@ func c19Main(s *c19State) error {
 			preCases = append(preCases, c19PreCase{Mode: "toy-paillier", Bits: bits, Seed: ctx.Seed*37 + int64(i*10+r), Conc: 1 + (i+r)%4, DeadlineS: 240})
 		}
 	}
-	if ctx.Thorough() && os.Getenv("VERIF_C19_FRESH") == "1" {
-		preCases = append(preCases, c19PreCase{Mode: "fresh", Seed: ctx.Seed, DeadlineS: 1500})
+	// one generation with crypto/rand (6.5 s on the idle 16-core machine, minutes under load): thorough tier unless
+	// VERIF_C19_FRESH=0, quick tier only with VERIF_C19_FRESH=1; a run that meets its context deadline is recorded, not judged
+	if fr := os.Getenv("VERIF_C19_FRESH"); (ctx.Thorough() && fr != "0") || fr == "1" {
+		preCases = append([]c19PreCase{{Mode: "fresh", Seed: ctx.Seed, DeadlineS: 900}}, preCases...)
 	}
 
 	var genSum c19GenSummary
@@ -782,13 +784,22 @@ func c19Main(s *c19State) error {
 	if !genSum.stopped {
 		rng := rand.New(rand.NewSource(ctx.Seed + 4242))
 		want := ctx.Pick(6, 30)
-		for tries := 0; tries < 2000 && len(ntCases) < want && len(toyPrimes) >= 2; tries++ {
-			P, Q := toyPrimes[rng.Intn(len(toyPrimes))], toyPrimes[rng.Intn(len(toyPrimes))]
-			small := P*Q < 46341
-			if len(ntCases) < want/2 && !small {
-				continue // first half: moduli TLC can square
+		// half of the cases on moduli TLC can square (all ordered pairs with P*Q < 46341), half on any two returned primes
+		var small [][2]int64
+		for _, P := range toyPrimes {
+			for _, Q := range toyPrimes {
+				if P*Q < 46341 {
+					small = append(small, [2]int64{P, Q})
+				}
 			}
-			ntCases = append(ntCases, c19PreCase{Mode: "toy-ntilde", P: fmt.Sprint(P), Q: fmt.Sprint(Q), Seed: ctx.Seed*41 + int64(tries), DeadlineS: 60})
+		}
+		rng.Shuffle(len(small), func(i, j int) { small[i], small[j] = small[j], small[i] })
+		for i := 0; i < len(small) && i < want/2; i++ {
+			ntCases = append(ntCases, c19PreCase{Mode: "toy-ntilde", P: fmt.Sprint(small[i][0]), Q: fmt.Sprint(small[i][1]), Seed: ctx.Seed*41 + int64(i), DeadlineS: 60})
+		}
+		for i := 0; len(ntCases) < want && len(toyPrimes) >= 2 && i < want; i++ {
+			P, Q := toyPrimes[rng.Intn(len(toyPrimes))], toyPrimes[rng.Intn(len(toyPrimes))]
+			ntCases = append(ntCases, c19PreCase{Mode: "toy-ntilde", P: fmt.Sprint(P), Q: fmt.Sprint(Q), Seed: ctx.Seed*43 + int64(i), DeadlineS: 60})
 		}
 	}
 	var ntDone []c19Done
